@@ -593,6 +593,8 @@ pub fn run(prog: &Program, args: &[i64], cfg: &EmuConfig) -> EmuResult {
                         if let Some((env, fst, snd)) = m.print_vars.take() {
                             if m.stats.print_changed.is_none() && env.iter().map(|e| &e.0).eq(mk.env.iter().map(|e| &e.0)) {
                                 let (f2, s2) = (m.locs_for(env.len(), false), m.locs_for(env.len(), true));
+                                m.stats.print_contexts_compared += 1;
+                                m.stats.print_context_variables_compared += env.len() as u64;
                                 for (i, (name, chi)) in env.iter().enumerate() {
                                     let ext = matches!(chi, super::Chi::Ext);
                                     if (snd[i].1 && snd[i] != s2[i]) || (!ext && fst[i].1 && fst[i] != f2[i]) {
